@@ -8,7 +8,8 @@ from ..core import Script, Rng
 from ..stage import LineStage, replay_line
 from . import io_gen
 
-ARTEFACTS = ["G1-consts"]
+ARTEFACTS = ["G1-consts", "G12-io"]
+EXTRA_PROPS = [("B3.Props.C11T", "B3/Props/C11T.lean")]   # theorems about the code translated from the sources
 PROPS_MODULE = "B3.Io.Props"
 PROPS_PATH = "B3/Io/Props.lean"
 RULE = ("(1) scripted readers through update_reader: ALL event sequences up to length 3 (quick) / 5 (thorough; length 6 was run once by the builder: 137k scripts) over {data 1, data 65536, "
